@@ -54,6 +54,8 @@ def batches(keys, mod, kdt):
     p = [keys[0], keys[-1]] + coll + free
     p = list(dict.fromkeys(p))
     out += [list(t) for t in itertools.product(p, repeat=2)]
+    if 0 in uni:
+        out += [[0, k] for k in keys[:3]] + [[k, 0] for k in keys[:3]] + [[keys[-1], 0, keys[0]]]
     # heavy repetition, more samples than buckets, keys mixed with colliding AND empty-bucket non-keys (smallest and largest) in unequal multiplicities
     frees = [u for u in nk if u % m not in buckets]
     out.append([keys[0]] * 5 + [keys[-1]] * 2 + coll * 3 + frees[:1] * 2)
